@@ -2688,15 +2688,19 @@ impl CodeGenerator {
                                 Value::Int64(unique_values.len() as i64)
                             }
                             AggregateFunction::Sum => {
-                                // Use saturating arithmetic to handle overflow safely.
-                                // Saturation at i64::MAX/MIN matches SQL behavior.
-                                let mut sum: i64 = 0;
+                                // Accumulate exactly (i128 cannot overflow here) and clamp the
+                                // total to the i64 range once. Saturating after every addition
+                                // made the result depend on the order of the rows: MIN + MIN +
+                                // MAX + MAX must be -2, not MAX - 1.
+                                let mut sum: i128 = 0;
                                 for t in &tuples {
                                     let val =
                                         t.get(*col_idx).map_or(0, super::value::Value::to_i64);
-                                    sum = sum.saturating_add(val);
+                                    sum += i128::from(val);
                                 }
-                                Value::Int64(sum)
+                                Value::Int64(
+                                    sum.clamp(i128::from(i64::MIN), i128::from(i64::MAX)) as i64,
+                                )
                             }
                             AggregateFunction::Min => {
                                 let min = tuples
